@@ -3,6 +3,7 @@ package checks
 
 import (
 	"fmt"
+	"github.com/enbility/spine-go/internal/verifh/engine"
 	"sort"
 	"strings"
 
@@ -92,4 +93,28 @@ func countResults(outs []world.Out, conn string, ref uint64) (ok, bad int) {
 		}
 	}
 	return
+}
+
+func boundsFor(c *engine.Ctx, quick, thorough []int) []int {
+	if c.Thorough {
+		return thorough
+	}
+	return quick
+}
+
+// mergeS runs the schedule part of a check after its history part and adds the counts up.
+func mergeS(c *engine.Ctx, rep *engine.Report, scs []*engine.SScenario, plan engine.SPlan) {
+	hs, _ := rep.Coverage["states"].(int)
+	ht, _ := rep.Coverage["transitions"].(int)
+	hsamples, _ := rep.Coverage["samples"].([]any)
+	hb, _ := rep.Coverage["time_budget_hit"].(bool)
+	engine.RunSchedules(c, scs, plan, rep)
+	rep.Coverage["states"] = rep.Coverage["states"].(int) + hs
+	rep.Coverage["transitions"] = rep.Coverage["transitions"].(int) + ht
+	rep.Coverage["traces_validated_against_impl"] = rep.Coverage["traces_validated_against_impl"].(int) + ht
+	rep.Coverage["samples"] = append(rep.Coverage["samples"].([]any), hsamples...)
+	if hb {
+		rep.Coverage["time_budget_hit"] = true
+		rep.Coverage["exhaustive"] = false
+	}
 }
